@@ -867,6 +867,11 @@ func (m *StateMachine) handleViewUpdate(
 		panic(fmt.Errorf("TODO: handle view update for step %q", rlc.S))
 	}
 
+	if rlc.IsReplaying() {
+		// The view update moved us to a round that the mirror answered with a committed header.
+		return
+	}
+
 	if vrv.Height == rlc.VRV.Height && vrv.Round == rlc.VRV.Round {
 		// If the view update caused a nil commit,
 		// the incoming vrv's height and round will differ from the set VRV.
@@ -1904,6 +1909,11 @@ func (m *StateMachine) advance(
 	} else {
 		// The state machine is still catching up with the mirror.
 		rlc.MarkCatchingUp()
+
+		// We may have been live in the previous round, and Reset keeps the view and the step.
+		// Without a view the kernel handles the finalization through handleCatchupEvent,
+		// which advances the height; the live handler would wait for votes that never come.
+		rlc.VRV = nil
 
 		// As in sendInitialActionSet: the replayed header's round is the commit's,
 		// which is the round the driver's finalization response will name.
